@@ -345,6 +345,11 @@ func (s *sqlGen) emitTable(t *TableInfo, tags map[string]string, comments []stri
 		if i == idAt {
 			emitID()
 		}
+		if s.g.r.Chance(1, 6) {
+			// a field that is neither exported nor a guard is not a column,
+			// wherever it is declared
+			fmt.Fprintf(b, "\tpriv%d %s\n", i, []string{"int", "string", "bool", "[]int"}[s.g.r.Intn(4)])
+		}
 		tag := tags[c.Field]
 		if s.g.r.Chance(1, 4) {
 			tag = strings.TrimSpace(fmt.Sprintf("json:%q %s", strings.ToLower(c.Field), tag))
